@@ -13,7 +13,7 @@ macro "scode_eval" : tactic => `(tactic|
     SEV.isNil, SEV.isNotFound, SEV.kind, sget, shas, sset, sdelete, sdeletePrefix, sclear, *])
 
 theorem scode_get (w : Bool) (KC : Codec K) (VC : Codec V) (m : Store) (k : K) (F : SFaults) :
-    sexecOp w sprog KC VC m (.get k) F = some (sget KC VC m k F) := by
+    sexecOp w sprog KC VC m (.get k) F = sget KC VC m k F := by
   simp only [sexecOp, sprog, code_Get]
   cases hk : encKF KC F k with
   | none => scode_eval
@@ -26,14 +26,14 @@ theorem scode_get (w : Bool) (KC : Codec K) (VC : Codec V) (m : Store) (k : K) (
       | some vb => cases hd : decAt VC F 0 vb <;> scode_eval
 
 theorem scode_has (w : Bool) (KC : Codec K) (VC : Codec V) (m : Store) (k : K) (F : SFaults) :
-    sexecOp w sprog KC VC m (.has k) F = some (shas KC m k F) := by
+    sexecOp w sprog KC VC m (.has k) F = shas KC m k F := by
   simp only [sexecOp, sprog, code_Has]
   cases hk : encKF KC F k with
   | none => scode_eval
   | some kb => cases hf : F.kv1 <;> cases w <;> scode_eval
 
 theorem scode_set (w : Bool) (KC : Codec K) (VC : Codec V) (m : Store) (k : K) (v : V) (F : SFaults) :
-    sexecOp w sprog KC VC m (.set k v) F = some (sset KC VC m k v F) := by
+    sexecOp w sprog KC VC m (.set k v) F = sset KC VC m k v F := by
   simp only [sexecOp, sprog, code_Set]
   cases hk : encKF KC F k with
   | none => scode_eval
@@ -43,7 +43,7 @@ theorem scode_set (w : Bool) (KC : Codec K) (VC : Codec V) (m : Store) (k : K) (
     | some vb => cases hf : F.kv1 <;> cases w <;> scode_eval
 
 theorem scode_delete (w : Bool) (KC : Codec K) (VC : Codec V) (m : Store) (k : K) (F : SFaults) :
-    sexecOp w sprog KC VC m (.delete k) F = some (sdelete KC m k F) := by
+    sexecOp w sprog KC VC m (.delete k) F = sdelete KC m k F := by
   simp only [sexecOp, sprog, code_Delete]
   cases hk : encKF KC F k with
   | none => scode_eval
@@ -59,16 +59,170 @@ theorem scode_clear (w : Bool) (KC : Codec K) (VC : Codec V) (m : Store) (pfx : 
   simp only [sprog, code_Clear]
   cases hf : F.kv1 <;> cases w <;> scode_eval
 
-/-- Every point operation of the translated code is the model's `sstep`. -/
+/-! ## `Iterate`: the consumer closure, the store's loop, the error plumbing -/
+
+/-- The consumer closure of the translated `Iterate`. -/
+def consumerOf : SStmt → SStmt
+  | .seq _ (.seq (.seq (.iter _ _ c _) _) _) => c
+  | _ => .skip
+
+/-- What one invocation of the consumer closure does, in terms of the two decode calls and the callback: `m2` is the
+machine afterwards, `b` what the closure answers the store. -/
+def ConsPost (KC : Codec K) (VC : Codec V) (F : SFaults) (stop inner : Nat) (m : SM K V) (kb vb : Bytes) (m2 : SM K V) (b : Bool) : Prop :=
+  m2.st = m.st ∧
+  match decAt KC F m.ndec kb with
+  | none => b = false ∧ m2.acc = m.acc ∧ m2.tr = m.tr ++ [⟨.decK, .fail⟩] ∧ m2.e inner = .inj .decK ∧ m2.ndec = m.ndec + 1
+  | some k =>
+    match decAt VC F (m.ndec + 1) vb with
+    | none => b = false ∧ m2.acc = m.acc ∧ m2.tr = m.tr ++ [⟨.decK, .ok⟩, ⟨.decV, .fail⟩] ∧ m2.e inner = .inj .decV ∧
+        m2.ndec = m.ndec + 2
+    | some v =>
+      m2.acc = m.acc ++ [(k, v)] ∧ (m2.e inner).isNil = true ∧ m2.ndec = m.ndec + 2 ∧
+      (if (m.acc ++ [(k, v)]).length = stop then b = false ∧ m2.tr = m.tr ++ [⟨.decK, .ok⟩, ⟨.decV, .ok⟩, ⟨.cb, .nc⟩]
+       else b = true ∧ m2.tr = m.tr ++ [⟨.decK, .ok⟩, ⟨.decV, .ok⟩, ⟨.cb, .ok⟩])
+
+def ConsSpec (run : SM K V → SOutc K V) (KC : Codec K) (VC : Codec V) (F : SFaults) (stop kp vp inner : Nat) : Prop :=
+  ∀ (m : SM K V) (kb vb : Bytes), (m.e inner).isNil = true →
+    match run ((m.setY kp kb).setY vp vb) with
+    | .done m2 (.adv b) => ConsPost KC VC F stop inner m kb vb m2 b
+    | _ => False
+
+/-- The translated closure satisfies that description (variables: 3 = `innerErr`, 4 / 5 = the closure's `key` / `value`). -/
+theorem consumer_spec (w : Bool) (KC : Codec K) (VC : Codec V) (F : SFaults) (key : K) (value : V) (pfx : Bytes) (bwd : Bool) (stop : Nat) :
+    ConsSpec (sexec KC VC F w key value pfx bwd stop (consumerOf sprog.iterate)) KC VC F stop 4 5 3 := by
+  intro m kb vb hnil
+  simp only [sprog, code_Iterate, consumerOf, ConsPost]
+  cases hk : decAt KC F m.ndec kb with
+  | none => simp [sexec, hk, SM.setY, SM.setK, SM.setE, SM.log, SEV.isNil, evalSE]
+  | some k =>
+    cases hv : decAt VC F (m.ndec + 1) vb with
+    | none => simp [sexec, hk, hv, SM.setY, SM.setK, SM.setV, SM.setE, SM.log, SEV.isNil, evalSE]
+    | some v =>
+      by_cases hs : (m.acc ++ [(k, v)]).length = stop
+      · simp [sexec, hk, hv, SM.setY, SM.setK, SM.setV, SM.setE, SM.log, SEV.isNil, evalSE]
+        simp at hs
+        simp [hs]
+        simpa [SEV.isNil] using hnil
+      · simp [sexec, hk, hv, SM.setY, SM.setK, SM.setV, SM.setE, SM.log, SEV.isNil, evalSE]
+        simp at hs
+        simp [hs]
+        simpa [SEV.isNil] using hnil
+
+/-- What the loop lemma tracks: raw store, delivered pairs, trace, and how the status of the hand-written loop is read off
+the machine (`failed`: the store's own iteration failed; otherwise the closure's captured error variable). -/
+structure LoopRel (m' : SM K V) (failed : Bool) (inner : Nat) (st : Store) (res : List (K × V) × Option SErr × List SEv) : Prop where
+  st : m'.st = st
+  acc : m'.acc = res.1
+  tr : m'.tr = res.2.2
+  status : res.2.1 = if failed then some .kv else (if (m'.e inner).isNil then none else some (m'.e inner).kind)
+
+/-- The store's iteration with a closure that meets `ConsSpec` is the hand-written `iterLoop` over the per-entry decode
+results. -/
+theorem iterLoopC_eq (run : SM K V → SOutc K V) (KC : Codec K) (VC : Codec V) (F : SFaults) (stop kp vp inner : Nat)
+    (hrun : ConsSpec run KC VC F stop kp vp inner) :
+    ∀ (es : List (Bytes × Bytes)) (n : Nat) (m : SM K V), m.ndec = 2 * n → (m.e inner).isNil = true →
+      LoopRel (iterLoopC run F.kvAfter kp vp es n m).1 (iterLoopC run F.kvAfter kp vp es n m).2 inner m.st
+        (iterLoop F.kvAfter stop (mapIdxFrom (decEntry KC VC F) n es) n m.acc m.tr) := by
+  intro es
+  induction es with
+  | nil =>
+    intro n m _ hnil
+    simp only [iterLoopC, mapIdxFrom, iterLoop]
+    exact ⟨rfl, rfl, rfl, by simp [SM.log, hnil]⟩
+  | cons e rest ih =>
+    intro n m hnd hnil
+    simp only [iterLoopC, mapIdxFrom, iterLoop]
+    by_cases hkv : F.kvAfter = some n
+    · simp only [hkv, if_true]
+      exact ⟨rfl, rfl, rfl, by simp⟩
+    · simp only [hkv, if_false]
+      have h := hrun m e.1 e.2 hnil
+      cases hr : run ((m.setY kp e.1).setY vp e.2) with
+      | cont m2 => simp [hr] at h
+      | done m2 r =>
+        cases r with
+        | v x e' => simp [hr] at h
+        | b x e' => simp [hr] at h
+        | e e' => simp [hr] at h
+        | adv b =>
+          simp only [hr] at h
+          obtain ⟨hst, hpost⟩ := h
+          simp only [decEntry, ← hnd]
+          cases hk : decAt KC F m.ndec e.1 with
+          | none =>
+            simp only [hk] at hpost
+            obtain ⟨rfl, hacc, htr, hinn, _⟩ := hpost
+            simp only
+            exact ⟨hst, by simp [SM.log, hacc], by simp [SM.log, htr], by simp [SM.log, hinn, SEV.isNil, SEV.kind]⟩
+          | some k =>
+            simp only [hk] at hpost
+            cases hv : decAt VC F (m.ndec + 1) e.2 with
+            | none =>
+              simp only [hv] at hpost
+              obtain ⟨rfl, hacc, htr, hinn, _⟩ := hpost
+              simp only
+              exact ⟨hst, by simp [SM.log, hacc], by simp [SM.log, htr], by simp [SM.log, hinn, SEV.isNil, SEV.kind]⟩
+            | some v =>
+              simp only [hv] at hpost
+              obtain ⟨hacc, hinn, hnd2, hif⟩ := hpost
+              simp only
+              by_cases hs : (m.acc ++ [(k, v)]).length = stop
+              · simp only [hs, if_true] at hif ⊢
+                obtain ⟨rfl, htr⟩ := hif
+                simp only
+                exact ⟨hst, by simp [SM.log, hacc], by simp [SM.log, htr], by simp [SM.log, hinn]⟩
+              · simp only [hs, if_false] at hif ⊢
+                obtain ⟨rfl, htr⟩ := hif
+                simp only
+                have hih := ih (n + 1) m2 (by omega) hinn
+                rw [hacc, htr, hst] at hih
+                exact hih
+
+/-- The error plumbing around the store's iteration, for any consumer closure `c` that meets `ConsSpec` (kept abstract so
+that symbolic evaluation does not enter it). -/
+theorem iterate_outer (w : Bool) (KC : Codec K) (VC : Codec V) (m : Store) (pfx : Bytes) (bwd : Bool) (stop : Nat) (F : SFaults)
+    (c : SStmt) (msg : String)
+    (hc : ConsSpec (sexec KC VC F w (default : K) (default : V) pfx bwd stop c) KC VC F stop 4 5 3) :
+    sfinishIter (sexec KC VC F w (default : K) (default : V) pfx bwd stop
+      (.seq .skip (.seq (.seq (.iter 4 5 c 10) (.ifErr 10 (.retE (.wrap (.var 10) msg)))) (.retE (.var 3)))) (sstart m)) =
+      siterate KC VC m pfx bwd stop F := by
+  simp only [siterate]
+  cases hf : F.kv1 with
+  | true => cases w <;> simp [sexec, sstart, sfinishIter, evalSE, serrW, SM.setE, SM.log, SEV.isNil, SEV.kind, hf]
+  | false =>
+    have hl := iterLoopC_eq _ KC VC F stop 4 5 3 hc ((sstart m : SM K V).st.entries pfx bwd) 0 (sstart m) rfl rfl
+    simp only [sstart] at hl
+    simp only [sexec, hf, Bool.false_eq_true, if_false, sstart]
+    generalize iterLoopC (sexec KC VC F w (default : K) (default : V) pfx bwd stop c) F.kvAfter 4 5 (Store.entries m pfx bwd) 0
+      { st := m, y := fun _ => [], v := fun _ => default, kk := fun _ => default, e := fun _ => SEV.nil, tr := [], ndec := 0, acc := [] } = r at hl ⊢
+    obtain ⟨r1, failed⟩ := r
+    obtain ⟨hst, hacc, htr, hstatus⟩ := hl
+    simp only at hst hacc htr hstatus
+    cases failed with
+    | true =>
+      simp only [if_true] at hstatus
+      cases w <;> simp [sfinishIter, evalSE, serrW, SM.setE, SEV.isNil, SEV.kind, hst, hacc, htr, hstatus]
+    | false =>
+      simp only [Bool.false_eq_true, if_false] at hstatus
+      cases hn : (r1.e 3).isNil <;> simp [sfinishIter, evalSE, SM.setE, SEV.isNil, hst, hacc, htr, hstatus, hn]
+
+/-- The translated `Iterate` is the model's `siterate`. -/
+theorem scode_iterate (w : Bool) (KC : Codec K) (VC : Codec V) (m : Store) (pfx : Bytes) (bwd : Bool) (stop : Nat) (F : SFaults) :
+    sexecOp w sprog KC VC m (.iterate pfx bwd stop) F = siterate KC VC m pfx bwd stop F := by
+  have hshape : sprog.iterate = .seq .skip (.seq (.seq (.iter 4 5 (consumerOf sprog.iterate) 10)
+      (.ifErr 10 (.retE (.wrap (.var 10) "failed to iterate over KV store")))) (.retE (.var 3))) := rfl
+  simp only [sexecOp]
+  rw [hshape]
+  exact iterate_outer w KC VC m pfx bwd stop F _ _ (consumer_spec w KC VC F default default pfx bwd stop)
+
+/-- Every operation of the translated code is the model's `sstep`. -/
 theorem sexecOp_eq_sstep (w : Bool) (KC : Codec K) (VC : Codec V) (m : Store) (op : SOp K V) (F : SFaults) :
-    match op with
-    | .iterate _ _ _ => sexecOp w sprog KC VC m op F = none
-    | _ => sexecOp w sprog KC VC m op F = some (sstep KC VC m op F) := by
+    sexecOp w sprog KC VC m op F = sstep KC VC m op F := by
   cases op with
   | get k => exact scode_get w KC VC m k F
   | has k => exact scode_has w KC VC m k F
   | set k v => exact scode_set w KC VC m k v F
   | delete k => exact scode_delete w KC VC m k F
-  | iterate p b s => rfl
+  | iterate p b s => exact scode_iterate w KC VC m p b s F
 
 end Hive.Typed.SCode
